@@ -134,7 +134,7 @@ def _worker(chunk):
         plan = _CHECK.gen(rng, idx, _TIER)
         res = _CHECK.run(plan)
         out.append({
-            'idx': idx, 'plan': plan if (res.violations or idx < 3) else None,
+            'idx': idx, 'plan': (getattr(res, 'pinned_plan', None) or plan) if (res.violations or idx < 3) else None,
             'violations': res.violations, 'stats': res.stats, 'hashes': res.hashes,
             'nontrivial': res.nontrivial, 'evaluations': res.evaluations,
             'sim_s': res.sim_s, 'digest': res.digest, 'sample': res.sample if idx < 4 else None,
